@@ -48,6 +48,7 @@ type v1Srv struct {
 	doms    map[string]int // domain (as the server sees it) -> domain id
 	rscript map[int][]int
 	dscript map[int][]int
+	nrep    int
 }
 
 type v1Sess struct {
@@ -76,10 +77,20 @@ func (s *v1Sess) Rcpt(to string, _ *smtp.RcptOptions) error {
 		reply, s.s.rscript[id] = l[0], l[1:]
 	}
 	s.s.ev.add(fmt.Sprintf("(ERcpt %s %s)", cN(id), v1RR[reply]))
+	// a misbehaving next hop: every other refusal carries an enhanced code of the other class; the
+	// basic code decides (RFC 5321), so the model does not distinguish them
+	s.s.nrep++
+	odd := (id+s.s.nrep)%2 == 1
 	switch reply {
 	case 1:
+		if odd {
+			return &smtp.SMTPError{Code: 450, EnhancedCode: smtp.EnhancedCode{5, 2, 1}, Message: "mailbox busy"}
+		}
 		return &smtp.SMTPError{Code: 450, EnhancedCode: smtp.EnhancedCode{4, 2, 1}, Message: "mailbox busy"}
 	case 2:
+		if odd {
+			return &smtp.SMTPError{Code: 550, EnhancedCode: smtp.EnhancedCode{4, 2, 2}, Message: "mailbox unavailable"}
+		}
 		return &smtp.SMTPError{Code: 550, EnhancedCode: smtp.EnhancedCode{5, 1, 1}, Message: "no such user"}
 	case 3:
 		return &smtp.SMTPError{Code: 421, EnhancedCode: smtp.EnhancedCode{4, 4, 2}, Message: "closing the channel, try later"}
@@ -105,9 +116,15 @@ func (s *v1Sess) Data(r io.Reader) error {
 	switch reply {
 	case 1:
 		s.s.ev.add(fmt.Sprintf("(EData %s DTemp)", cList(rs)))
+		if len(s.rcpts)%2 == 0 {
+			return &smtp.SMTPError{Code: 451, EnhancedCode: smtp.EnhancedCode{5, 3, 0}, Message: "try later"}
+		}
 		return &smtp.SMTPError{Code: 451, EnhancedCode: smtp.EnhancedCode{4, 3, 0}, Message: "try later"}
 	case 2:
 		s.s.ev.add(fmt.Sprintf("(EData %s DPerm)", cList(rs)))
+		if len(s.rcpts)%2 == 0 {
+			return &smtp.SMTPError{Code: 554, EnhancedCode: smtp.EnhancedCode{4, 6, 0}, Message: "content refused"}
+		}
 		return &smtp.SMTPError{Code: 554, EnhancedCode: smtp.EnhancedCode{5, 6, 0}, Message: "content refused"}
 	}
 	s.s.ev.add(fmt.Sprintf("(ECommit %s)", cList(rs)))
